@@ -16,7 +16,7 @@ impl Property for C06 {
         "C06"
     }
     fn rule(&self) -> &'static str {
-        "profile `binding`: signal lists of 2-10 signals in any interleaving of kinds, widths and defaults (numbers incl. 64-bit, Z); header = random subset and permutation of the legal column names (name for inputs/outputs/virtuals, name and/or name_out for bidirectionals, pairs split or partial); loop-free programs of 2-7 rows whose literal in column j of row r is a tag distinct from its neighbours' and fitting the width; Z in input columns, Z/X in expected columns; consecutive rows repeat or change single columns or return to the value before (v, w, v); in a third of the cases the driver fails on one row's call, in some cases with virtual signals the device answers Z/X so that a row becomes an error item after its vector was handed over - the caller goes on. Oracle: closed formulas - inputs = input-capable signals in list order, each from its column or its default; outputs = output-capable signals in list order then virtual signals, each expected value from name / name_out or X; changed==false => value equals the previous vector handed to the driver (from the log); header-omitted inputs never flagged changed. Non-trivial: header order != list order, or an omitted signal, or a split bidirectional pair, with >= 2 rows; distinct by signal list + header + rows."
+        "profile `binding`: signal lists of 1-10 signals (possibly without any input) in any interleaving of kinds, widths and defaults (numbers incl. 64-bit, Z); header = random subset and permutation of the legal column names (name for inputs/outputs/virtuals, name and/or name_out for bidirectionals, pairs split or partial); loop-free programs of 2-7 rows whose literal in column j of row r is a tag distinct from its neighbours' and fitting the width; Z in input columns, Z/X in expected columns; consecutive rows repeat or change single columns or return to the value before (v, w, v); in a third of the cases the driver fails on one row's call, in some cases with virtual signals the device answers Z/X so that a row becomes an error item after its vector was handed over - the caller goes on. Oracle: closed formulas - inputs = input-capable signals in list order, each from its column or its default; outputs = output-capable signals in list order then virtual signals, each expected value from name / name_out or X; changed==false => value equals the previous vector handed to the driver (from the log); header-omitted inputs never flagged changed. Non-trivial: header order != list order, or an omitted signal, or a split bidirectional pair, with >= 2 rows; distinct by signal list + header + rows."
     }
     fn cases(&self, tier: Tier) -> u64 {
         match tier {
@@ -28,13 +28,14 @@ impl Property for C06 {
         [300, 8, 12]
     }
     fn required_classes(&self) -> Vec<&'static str> {
-        vec!["header-permuted", "input-omitted", "output-omitted", "bidir-split", "bidir-out-only", "virtual-column", "changed=false", "changed=true", "Z-default", "Z-input-entry", "row-after-error-item"]
+        vec!["header-permuted", "input-omitted", "output-omitted", "bidir-split", "bidir-out-only", "virtual-column", "changed=false", "changed=true", "Z-default", "Z-input-entry", "row-after-error-item", "test-without-inputs"]
     }
     fn run(&self, s: &Streams) -> CaseOut {
         let mut out = CaseOut::new();
         let mut ch = Ch::new(&s[0]);
         let mut cfg = Cfg::flow();
-        cfg.n_in = (1, 4);
+        // (a test may have no input at all, or no output at all - never neither)
+        cfg.n_in = (0, 4);
         cfg.n_out = (1, 4);
         cfg.n_bidir = (0, 2);
         cfg.interleave = true;
@@ -147,6 +148,7 @@ impl Property for C06 {
         out.class_if(out_only, "bidir-out-only");
         out.class_if(!virtuals.is_empty(), "virtual-column");
         out.class_if(sigs.iter().any(|s| s.default() == Some(InVal::Z)), "Z-default");
+        out.class_if(!sigs.iter().any(|s| s.is_input()), "test-without-inputs");
         out.nontrivial = permuted || in_omitted || out_omitted || split || apart;
 
         let Some(tc) = load_wellformed(&mut out, "c06", &text, &sigs) else {
